@@ -181,3 +181,51 @@ def mentions(t: T, sub: T) -> bool:
 
 def fn_qual(fq: str) -> str:
     return fq.split(":", 1)[1]
+
+
+STRIP_FUNCS = ("numpy.asarray", "numpy.array", "numpy.asanyarray", "numpy.ravel", "numpy.squeeze", "numpy.concatenate", "numpy.stack",
+               "numpy.hstack", "numpy.vstack", "builtins.list", "builtins.tuple", "numpy.fromiter", "numpy.ascontiguousarray")
+STRIP_ATTRS = ("values", "array", "iloc", "iat", "_values")
+STRIP_METHODS = ("to_numpy", "tolist", "to_list", "ravel", "flatten", "reset_index", "item")
+
+
+def label_strips(t: T, source: T):
+    """Sub-terms of t that take the labelled value `source` (or a label-preserving selection of it) out of its labels:
+    np.asarray(x) / x.values / x.iloc[...] / x.to_numpy() / list(x) ...   A stripped value that is put straight back under
+    the same labels -- pandas.Series(strip(x), index=x.index) -- is exempt."""
+    from ..terms import subterms as _sub
+
+    def selects(x):  # x is source or source[...] / source.loc[...] / source.copy()
+        while True:
+            if x is source:
+                return True
+            if x.op == "sub":
+                x = x.args[0]
+            elif x.op == "attr" and x.args[1] in ("loc", "at", "T"):
+                x = x.args[0]
+            elif x.op == "call" and x.args[0].op == "attr" and x.args[0].args[1] in ("copy", "astype", "sort_index", "fillna") :
+                x = x.args[0].args[0]
+            elif x.op in ("assume",):
+                x = x.args[1]
+            else:
+                return False
+
+    def is_strip(x):
+        if x.op == "attr" and x.args[1] in STRIP_ATTRS and selects(x.args[0]):
+            return True
+        if x.op == "call":
+            f = x.args[0]
+            if f.op == "global" and f.args[0] in STRIP_FUNCS and x.args[1] and any(selects(a) or (a.op in ("list", "tuple") and any(
+                    isinstance(el, T) and selects(el) for el in a.args[0])) for a in x.args[1] if isinstance(a, T)):
+                return True
+            if f.op == "attr" and f.args[1] in STRIP_METHODS and selects(f.args[0]):
+                return True
+        return False
+
+    exempt = set()
+    for x in _sub(t):
+        if x.op == "call" and x.args[0].op == "global" and x.args[0].args[0] in ("pandas.Series", "pandas.DataFrame") and x.args[1]:
+            idx = dict(x.args[2]).get("index") if len(x.args) > 2 else None
+            if idx is not None and idx.op == "attr" and idx.args[1] == "index" and selects(idx.args[0]) and is_strip(x.args[1][0]):
+                exempt.add(x.args[1][0].uid)
+    return [x for x in _sub(t) if is_strip(x) and x.uid not in exempt]
